@@ -30,6 +30,10 @@ theorem utc_pattern_pinned : Mashu.Generated.utcPatternCore = "^UTC(([+-][0-2][0
 
 example : parseTz (tzname (-345)) = some (-345) := tz_roundtrip _ (by omega) (by omega)
 example : parseTz "UTC+24:00".toList = none := by decide +kernel
-example : parseTz "UTC\n".toList = some 0 := by decide +kernel
+example : parseTz "UTC\n".toList = none := by decide +kernel
+example : parseTzLenient "UTC\n".toList = some 0 := by decide +kernel   -- what `re.match` + `$` did before fix F47
+
+/-- the whole string has to match (read from `parse_timezone` in /repo on this run) -/
+theorem tz_fullmatch_pinned : Generated.tzParseFullMatch = true := by decide
 
 end Mashu.Tz
